@@ -31,6 +31,9 @@ fn main() {
     ba_harness::world::quiet_panics();
     let report = match prop.as_str() {
         "c16" => props::c16::run(&cfg),
+        "c01" => props::chain::run(&cfg, props::chain::Which::C01),
+        "c03" => props::chain::run(&cfg, props::chain::Which::C03),
+        "c05" => props::chain::run(&cfg, props::chain::Which::C05),
         _ => { eprintln!("unknown property {}", prop); std::process::exit(2); }
     };
     if let Some(dir) = std::path::Path::new(&cfg.out).parent() {
